@@ -329,6 +329,13 @@ class World:
                 # instances without a __dict__: the instance declaration lives in a slot
                 ns['__slots__'] = ('__provides__', 'zname', '__weakref__')
                 ctx.count('classes_with_a_provides_slot')
+            builtin_base = None
+            if rng.random() < 0.12 and not any(issubclass(b, (list, dict, int)) for b in bases) and '__slots__' not in ns:
+                # a class built on a built-in type (its specification hangs off the built-in's, which lives in a side
+                # table because the type itself cannot carry attributes)
+                builtin_base = rng.choice([list, dict, int])
+                bases = bases + (builtin_base,)
+                ctx.count('classes_built_on_a_builtin_type')
             try:
                 c = type('C%d' % len(self.classes), bases or (object,), ns)
             except TypeError:
@@ -373,7 +380,8 @@ class World:
         if op == 'gc':
             gc.collect()
             ctx.op('gc')
-        elif op == 'factory' and hasattr(o, '__dict__'):
+        elif op == 'factory' and hasattr(o, '__dict__') and type(o).__hash__ is not None:
+            # (hashable instances only: a factory is looked up in the table of built-in specifications on the way)
             # a callable *instance* declared as a factory: says what its products implement, and is stored in the
             # instance's own __dict__; it changes nothing about what the instance itself (or a super proxy of it)
             # provides
